@@ -326,10 +326,13 @@ Lemma sub_index a p k ts ov b f : clean b ts ->
 Proof.
   intros Hc. rewrite go_S. cbn [step]. unfold step_sub. cbn [token post]. unfold assignable_index.
   rewrite skip1; [|discriminate|split; [discriminate|intros _; discriminate]].
+  unfold push_nl, set_nl. cbn [pre post over nl].
+  rewrite skip0 by (split; [discriminate|intros _; discriminate]).
   unfold expression. rewrite !run_ptry. unfold call_E. cbn [run].
   rewrite prec_int by (apply closer_clean; tauto).
   rewrite loop_stop by (left; cbn [token post]; apply (ok_rbracket T OK)).
-  cbn [get_E run ok ptry]. unfold pexpect, expect, is_k. cbn [token post tok_is kw_eqb].
+  cbn [get_E run ok ptry]. unfold pop_nl, set_nl. cbn [pre post over nl].
+  unfold pexpect, expect, is_k. cbn [token post tok_is kw_eqb].
   rewrite skip1; [|discriminate|exact Hc]. cbn [ptry]. apply run_call.
 Qed.
 
@@ -339,6 +342,25 @@ Lemma args_done acc p ts ov b f :
   go T (S f) (QArgs false acc (C p (TK KRightParen :: ts) ov b)) = Ok (REs acc (C p (TK KRightParen :: ts) ov b)).
 Proof. reflexivity. Qed.
 
+Lemma skip_nls_id c : is_k KNewline c = false -> skip_nls c = c.
+Proof. intros H. unfold skip_nls, local_fuel. cbn [skip_while_nl]. rewrite H. reflexivity. Qed.
+
+Lemma after_arg_rparen p rest ov b :
+  after_arg (C p (TK KRightParen :: rest) ov b) = C p (TK KRightParen :: rest) ov b.
+Proof. reflexivity. Qed.
+
+Lemma starter_not_nl t p ts ov b : starter t -> is_k KNewline (C p (t :: ts) ov b) = false.
+Proof. intros S. unfold is_k. cbn [token post]. starter_cases t S; reflexivity. Qed.
+
+Lemma after_arg_comma p t2 rest ov b : starter t2 ->
+  after_arg (C p (TK KComma :: t2 :: rest) ov b) = C (TK KComma :: p) (t2 :: rest) ov b.
+Proof.
+  intros S2. unfold after_arg. cbn [token post tok_is kw_eqb orb].
+  rewrite (skip_nls_id (C p (TK KComma :: t2 :: rest) ov b)) by reflexivity.
+  rewrite skip1; [|discriminate|apply starter_clean; exact S2].
+  apply skip_nls_id. apply starter_not_nl. exact S2.
+Qed.
+
 Lemma args_last acc p t ts ov b f e p1 rest ov1 b1 : starter t ->
   go T f (QPrec (pt_entry T) (C p (t :: ts) ov b)) = Ok (RE e (C p1 (TK KRightParen :: rest) ov1 b1)) ->
   go T (S f) (QArgs false acc (C p (t :: ts) ov b))
@@ -347,7 +369,7 @@ Proof.
   intros S He. rewrite go_S. cbn [step]. unfold step_args.
   starter_cases t S; cbn [token post];
     (unfold expression; rewrite !run_ptry; unfold call_E; cbn [run]; rewrite He; cbn [get_E run ok ptry];
-     unfold look2; cbn [token post]; apply run_call).
+     rewrite after_arg_rparen; apply run_call).
 Qed.
 
 Lemma args_comma acc p t ts ov b f e p1 t2 rest ov1 b1 : starter t -> starter t2 ->
@@ -356,17 +378,9 @@ Lemma args_comma acc p t ts ov b f e p1 t2 rest ov1 b1 : starter t -> starter t2
   = go T f (QArgs false (acc ++ [e]) (C (TK KComma :: p1) (t2 :: rest) ov1 b1)).
 Proof.
   intros S S2 He. rewrite go_S. cbn [step]. unfold step_args.
-  assert (L : match look2 (C p1 (TK KComma :: t2 :: rest) ov1 b1) with
-              | (TK KNewline, TK KComma) => skip 2 (C p1 (TK KComma :: t2 :: rest) ov1 b1)
-              | (TK KComma, TK KNewline) => skip 2 (C p1 (TK KComma :: t2 :: rest) ov1 b1)
-              | (TK KComma, _) => skip 1 (C p1 (TK KComma :: t2 :: rest) ov1 b1)
-              | _ => C p1 (TK KComma :: t2 :: rest) ov1 b1
-              end = C (TK KComma :: p1) (t2 :: rest) ov1 b1).
-  { unfold look2. rewrite skip1; [|discriminate|apply starter_clean; exact S2]. cbn [token post].
-    starter_cases t2 S2; reflexivity. }
   starter_cases t S; cbn [token post];
     (unfold expression; rewrite !run_ptry; unfold call_E; cbn [run]; rewrite He; cbn [get_E run ok ptry];
-     rewrite L; apply run_call).
+     rewrite after_arg_comma by exact S2; apply run_call).
 Qed.
 
 Lemma sub_call a p ts ov b f args p3 rest ov3 : clean true ts -> clean b rest ->
